@@ -1,34 +1,71 @@
 #!/usr/bin/env python3
-"""Applies every seeded change under /verif/seeded to /repo (git apply), runs the property's quick check,
-undoes the change (git checkout -- .) and records what the check reported. Never leaves /repo modified."""
+"""Runs the quick check of each seeded change's property against a tree carrying that change and records
+what the check reported in /verif/seeded/results.json.
+
+Default mode: every seed gets its own scratch worktree of /repo under /tmp (removed afterwards) and the same
+vcheck binary is pointed at it with VERIF_REPO, so /repo and /verif/evidence are never touched and several
+seeds run in parallel.  --in-repo applies the patch to /repo itself (git apply / git checkout -- .), one
+seed at a time, exactly as the registered commands would see it.
+
+usage: run_seeded.py [--in-repo] [--jobs N] [name-prefix ...]
+"""
 import json, glob, os, subprocess, sys, re, time
-V='/verif'
-only=sys.argv[1:] 
-res={}
+from concurrent.futures import ThreadPoolExecutor
+V = '/verif'
+args = sys.argv[1:]
+in_repo = '--in-repo' in args
+jobs = 3
+if '--jobs' in args:
+    jobs = int(args[args.index('--jobs') + 1]); del args[args.index('--jobs'):args.index('--jobs') + 2]
+only = [a for a in args if not a.startswith('--')]
+
 def sh(cmd, **kw): return subprocess.run(cmd, shell=True, capture_output=True, text=True, **kw)
-assert sh('git -C /repo status --porcelain --untracked-files=no').stdout.strip()=='' , 'repo not clean'
-for d in sorted(glob.glob(f'{V}/seeded/*/')):
-    name=os.path.basename(d.rstrip('/'))
-    if only and not any(name.startswith(o) for o in only): continue
-    meta=json.load(open(d+'meta.json'))
-    prop=meta['property']
-    a=sh(f'git -C /repo apply {d}patch.diff')
-    if a.returncode!=0:
-        res[name]={'applied':False,'error':a.stderr[-300:]}
-        sh('git -C /repo checkout -- .'); continue
-    t0=time.time()
-    try:
-        r=sh(f'cd {V} && timeout 1500 ./bin/vcheck run {prop} --tier quick')
-        out=r.stdout
-        viol=[l for l in out.splitlines() if l.startswith('VIOLATION')]
-        who=sorted(set(re.findall(r'violation: (\S+) (?:assert|panic|deadlock) "([^"]*)"', out)))
-        res[name]={'applied':True,'exit':r.returncode,'violation_lines':len(viol),'reported_by':[f'{h}: {i}' for h,i in who][:6],
-                   'status':{0:'MISSED',1:'DETECTED',2:'HARNESS-ERROR',3:'INCONCLUSIVE'}.get(r.returncode,str(r.returncode)),'wall_s':round(time.time()-t0,1)}
-    finally:
-        sh('git -C /repo checkout -- .')
-    print(name,res[name].get('status'),res[name].get('reported_by'),flush=True)
-assert sh('git -C /repo status --porcelain --untracked-files=no').stdout.strip()=='' , 'repo not clean after run'
-p=f'{V}/seeded/results.json'
-old=json.load(open(p)) if os.path.exists(p) else {}
-old.update(res)
-json.dump(old,open(p,'w'),indent=1,sort_keys=True)
+
+def classify(r):
+    out = r.stdout
+    viol = [l for l in out.splitlines() if l.startswith('VIOLATION')]
+    who = sorted(set(re.findall(r'violation: (\S+) (?:assert|panic|deadlock) "([^"]*)"', out)))
+    return {'applied': True, 'exit': r.returncode, 'violation_lines': len(viol),
+            'reported_by': [f'{h}: {i}' for h, i in who][:6],
+            'status': {0: 'MISSED', 1: 'DETECTED', 2: 'HARNESS-ERROR', 3: 'INCONCLUSIVE'}.get(r.returncode, str(r.returncode))}
+
+def one(d):
+    name = os.path.basename(d.rstrip('/'))
+    prop = json.load(open(d + 'meta.json'))['property']
+    t0 = time.time()
+    if in_repo:
+        a = sh(f'git -C /repo apply {d}patch.diff')
+        try:
+            if a.returncode != 0:
+                return name, {'applied': False, 'error': a.stderr[-300:]}
+            res = classify(sh(f'cd {V} && timeout 2400 ./bin/vcheck run {prop} --tier quick'))
+        finally:
+            sh('git -C /repo checkout -- .')
+    else:
+        wt = f'/tmp/vseed_{name}'
+        sh(f'git -C /repo worktree remove --force {wt}; rm -rf {wt}')
+        a = sh(f'git -C /repo worktree add -q --detach {wt} HEAD && git -C {wt} apply {d}patch.diff')
+        try:
+            if a.returncode != 0:
+                return name, {'applied': False, 'error': a.stderr[-300:]}
+            res = classify(sh(f'cd {V} && VERIF_REPO={wt} timeout 2400 ./bin/vcheck run {prop} --tier quick --workers {max(4, 14 // jobs)}'))
+        finally:
+            sh(f'git -C /repo worktree remove --force {wt}; rm -rf {wt} {V}/out/_dev/vseed_{name}')
+    res['wall_s'] = round(time.time() - t0, 1)
+    print(name, res.get('status'), res.get('reported_by'), flush=True)
+    return name, res
+
+dirs = [d for d in sorted(glob.glob(f'{V}/seeded/*/')) if os.path.exists(d + 'meta.json')
+        and (not only or any(os.path.basename(d.rstrip('/')).startswith(o) for o in only))]
+if in_repo:
+    assert sh('git -C /repo status --porcelain --untracked-files=no').stdout.strip() == '', 'repo not clean'
+    results = [one(d) for d in dirs]
+    assert sh('git -C /repo status --porcelain --untracked-files=no').stdout.strip() == '', 'repo not clean after run'
+else:
+    with ThreadPoolExecutor(jobs) as ex:
+        results = list(ex.map(one, dirs))
+    sh('git -C /repo worktree prune')
+p = f'{V}/seeded/results.json'
+old = json.load(open(p)) if os.path.exists(p) else {}
+old.update(dict(results))
+json.dump(old, open(p, 'w'), indent=1, sort_keys=True)
